@@ -818,6 +818,9 @@ func mustRe(s string) *Re {
 
 // ufAxioms returns the contract instances for one UF application.
 func ufAxioms(u *Term) []*Term {
+	if strings.HasPrefix(u.Name, "fc:") {
+		return []*Term{mkPrefixOf(mkStr("("), u), mkSuffixOf(mkStr("i)"), u)}
+	}
 	switch u.Name {
 	case "goquote":
 		s := u.Args[0]
